@@ -367,6 +367,10 @@ def run(tier):
                ('enum E1 : signed char { M = -128, N = 127 }; return sizeof(M);', 1), ('enum E2 : short { M = -32768 }; return sizeof(M);', 2),
                ('enum E3 : int { M = -2147483648 }; return _Generic(M, long: 2, default: 1);', 1), ('enum E4 : long { M = -9223372036854775807 - 1 }; return sizeof(M);', 8),
                ('enum { A = -9223372036854775807 - 1, B = 9223372036854775807 }; return sizeof(B);', 8),
+               # size_t results
+               ('struct S { char a; long b; }; return _Generic(__builtin_offsetof(struct S, b), unsigned long: 1, long: 2, default: 3);', 1), ('return _Generic(sizeof(int), unsigned long: 1, long: 2, default: 3);', 1),
+               ('return _Generic(_Alignof(int), unsigned long: 1, long: 2, default: 3);', 1), ('struct S { char a; long b; }; return _Generic(__builtin_offsetof(struct S, b) + 1, unsigned long: 1, long: 2, default: 3);', 1),
+               ('struct S { char a; long b; }; return _Generic(-__builtin_offsetof(struct S, b), unsigned long: 1, long: 2, default: 3);', 1), ('int a[3]; return _Generic(&a[2] - &a[0], long: 1, unsigned long: 2, default: 3);', 1),
                # qualifiers of array elements through decay, '*' and '&' (C11; both references agree)
                ('static const int a[3]; return _Generic(&*a, const int *: 1, int *: 2);', 1), ('static const int a[3]; return _Generic(&a[0], const int *: 1, int *: 2);', 1),
                ('static const int a[3]; return _Generic(&*&a[1], const int *: 1, int *: 2);', 1), ('static volatile char a[2][2]; return _Generic(&**a, volatile char *: 1, char *: 2);', 1),
